@@ -175,6 +175,10 @@ class TxnExpr(LeafExpr):
 TxnExpr.__module__ = "pyteal"
 
 
+# the array index of txna/gtxna/itxna/gitxna is a single-byte immediate
+MAX_STATIC_ARRAY_INDEX = 255
+
+
 class TxnaExpr(LeafExpr):
     """An expression that accesses a transaction array field from the current transaction."""
 
@@ -186,6 +190,11 @@ class TxnaExpr(LeafExpr):
             )
         if isinstance(index, Expr):
             require_type(index, TealType.uint64)
+        elif not 0 <= index <= MAX_STATIC_ARRAY_INDEX:
+            # a constant index is emitted as a one-byte immediate
+            raise TealInputError(
+                f"Invalid array index {index}: a constant index must be in [0, {MAX_STATIC_ARRAY_INDEX}]"
+            )
 
     def __init__(
         self,
